@@ -126,7 +126,13 @@ def run_hist(acc, c):
         elif k in (4, 5):
             sel = None if k == 4 else {"T": [1]}
             kw = {} if sel is None else {"target_nodes": [ids[1]]}
-            e = {"obj": inst.d.executor(**kw), "sel": sel, "state": "fresh", "inst": inst}
+            try:
+                e = {"obj": inst.d.executor(**kw), "sel": sel, "state": "fresh", "inst": inst}
+            except Exception as e_:  # noqa: BLE001
+                acc.evaluations += 1
+                acc.violation(V("executor_refused", f"history {names}: creating executor({kw}) raised {e_!r} (state left behind by the earlier operations?)"),
+                              dict(c, history=names), (), None, p.source())
+                e = None
         elif k in (6, 7):
             if e is None:
                 continue
